@@ -72,6 +72,30 @@ type World struct {
 	// answers a field every time it is asked
 	KeepLists bool
 	kept      map[string]interface{}
+	// LendQuery: the application is able to serve a mutation root although the universe's schema has none (the query
+	// root's node stands in): what keeps mutations from being executed is then the schema alone
+	LendQuery bool
+}
+
+// OfferMutation loads a document that defines a type Mutation and is refused by validation.
+func (w *World) OfferMutation() error {
+	w.LendQuery = true
+	for _, tail := range []string{"type Bad9 { __x: Int }", "type Bad9 implements Nope9 { x: Int }"} {
+		if err := w.Root.ParseString("type Mutation { title: String a: A }\n" + tail); err == nil {
+			return fmt.Errorf("a document that must be refused was accepted: type Mutation ... %s", tail)
+		}
+	}
+	return nil
+}
+
+func (w *World) rootNode(field string) (string, bool) {
+	if r, ok := w.U.Roots[field]; ok {
+		return r, true
+	}
+	if w.LendQuery && field == "mutation" {
+		return w.U.Roots["query"], true
+	}
+	return "", false
 }
 
 // wrapNode is a resolver whose Go value consists of one nil pointer (the node it stands for is the world's WrapNode).
@@ -157,7 +181,45 @@ func NewWorld(u *Universe, st Strategy, lm ListMode) (*World, error) {
 	if err := w.Root.ParseString(u.SDL()); err != nil {
 		return nil, fmt.Errorf("universe schema rejected: %w\n%s", err, u.SDL())
 	}
+	if lm == ListResolver {
+		if err := w.Past(); err != nil {
+			return nil, err
+		}
+	}
 	return w, nil
+}
+
+// Past gives the root a history of refused loads: documents that bring a Subscription root type, extend every object
+// type (twice), enum and input type of the universe and are then refused by validation. Nothing of them may be left:
+// the requests of the universe are answered as before (and `subscription { tick }`, `{ zz9 }` are refused).
+func (w *World) Past() error {
+	names := make([]string, 0, len(w.U.Types))
+	for n := range w.U.Types {
+		names = append(names, n)
+	}
+	sort.Strings(names)
+	var ext strings.Builder
+	if _, has := w.U.Types["Subscription"]; !has {
+		ext.WriteString("type Subscription { tick: Int }\n")
+	}
+	for round := 0; round < 2; round++ {
+		for _, n := range names {
+			switch w.U.Types[n].Kind {
+			case "OBJECT":
+				fmt.Fprintf(&ext, "extend type %s { zz%d: Int }\n", n, 9-round)
+			case "INPUT_OBJECT":
+				fmt.Fprintf(&ext, "extend input %s { zz%d: Int = 1 }\n", n, 9-round)
+			case "ENUM":
+				fmt.Fprintf(&ext, "extend enum %s { ZZ%d }\n", n, 9-round)
+			}
+		}
+	}
+	for _, tail := range []string{"type Bad9 { __x: Int }", "type Bad9 { x: Nope9 }", "type Bad9 implements Nope9 { x: Int }"} {
+		if err := w.Root.ParseString(ext.String() + tail); err == nil {
+			return fmt.Errorf("a document that must be refused was accepted: ... %s", tail)
+		}
+	}
+	return nil
 }
 
 // NewMixedWorld realises each node according to mix.Assign; plain nodes are served by an
@@ -221,7 +283,7 @@ func NewReflWorld(u *Universe, lm ListMode, b Binding) (*World, error) {
 // ReflResolve implements refluni.Backend.
 func (w *World) ReflResolve(id, field string, args map[string]interface{}) (interface{}, error) {
 	if id == "$root" {
-		if r, ok := w.U.Roots[field]; ok {
+		if r, ok := w.rootNode(field); ok {
 			return w.node(r), nil
 		}
 		return nil, fmt.Errorf("no root %s", field)
@@ -715,7 +777,7 @@ func typedSlice(l []Value) interface{} {
 type rootRes struct{ w *World }
 
 func (r *rootRes) Resolve(field *ggql.Field, args map[string]interface{}) (interface{}, error) {
-	if id, ok := r.w.U.Roots[field.Name]; ok {
+	if id, ok := r.w.rootNode(field.Name); ok {
 		return r.w.node(id), nil
 	}
 	return nil, fmt.Errorf("no root %s", field.Name)
@@ -742,7 +804,7 @@ func (r *anyRes) Resolve(obj interface{}, field *ggql.Field, args map[string]int
 		return nil, fmt.Errorf("AnyResolver asked to resolve %s on a %T", field.Name, obj)
 	}
 	if n.id == "$root" {
-		if id, ok := r.w.U.Roots[field.Name]; ok {
+		if id, ok := r.w.rootNode(field.Name); ok {
 			return r.w.node(id), nil
 		}
 		return nil, fmt.Errorf("no root %s", field.Name)
